@@ -122,7 +122,7 @@ func (e *evaluator) binaryOp(op token.Token, l, r Value) (Value, *rtErr) {
 			case token.Add:
 				return Int{V: a.V + b.V}, nil
 			case token.Sub:
-				return Int{V: a.V + b.V}, nil
+				return Int{V: a.V - b.V}, nil
 			case token.Mul:
 				return Int{V: a.V * b.V}, nil
 			case token.Quo:
